@@ -58,3 +58,125 @@ package consul
 //@ ensures[mesh-gateway-same-datacenter] err == nil && is[*connect.SpiffeIDMeshGateway](ret0[connect.CertURI](connect.ParseCertURI(csr.URIs[0]))) ==> as[*connect.SpiffeIDMeshGateway](ret0[connect.CertURI](connect.ParseCertURI(csr.URIs[0]))).Datacenter == c.serverConf.Datacenter
 //@ ensures[server-needs-acl-write] err == nil && is[*connect.SpiffeIDServer](ret0[connect.CertURI](connect.ParseCertURI(csr.URIs[0]))) ==> authz.ToAllowAuthorizer().ACLWriteAllowed(&acl.AuthorizerContext{}) == nil
 //@ ensures[server-same-datacenter] err == nil && is[*connect.SpiffeIDServer](ret0[connect.CertURI](connect.ParseCertURI(csr.URIs[0]))) ==> as[*connect.SpiffeIDServer](ret0[connect.CertURI](connect.ParseCertURI(csr.URIs[0]))).Datacenter == c.serverConf.Datacenter
+
+// ---- C19: one replication round (ACL tokens / policies / roles)
+
+//@ file acl_replication.go
+
+// the replicator interface is used through its contract: after SortState both sides are ordered by ID with the
+// empty IDs first, and LocalMeta/RemoteMeta are functions of the index (ASSUMED for the three implementations)
+//@ pure lid(tr aclTypeReplicator, a int) string = ret0[string](tr.LocalMeta(a))
+//@ pure lhash(tr aclTypeReplicator, a int) []byte = ret2[[]byte](tr.LocalMeta(a))
+//@ pure rid(tr aclTypeReplicator, b int) string = ret0[string](tr.RemoteMeta(b))
+//@ pure rmod(tr aclTypeReplicator, b int) uint64 = ret1[uint64](tr.RemoteMeta(b))
+//@ pure rhash(tr aclTypeReplicator, b int) []byte = ret2[[]byte](tr.RemoteMeta(b))
+//@ pure nLocal(tr aclTypeReplicator) int = ret0[int](tr.SortState())
+//@ pure nRemote(tr aclTypeReplicator) int = ret1[int](tr.SortState())
+// a remote object must be written locally: it is new here, or it changed since the last round and differs
+//@ pure needsUpsert(tr aclTypeReplicator, b int, last uint64) bool = (forall a int :: 0 <= a && a < nLocal(tr) ==> lid(tr, a) != rid(tr, b)) || (exists a int :: 0 <= a && a < nLocal(tr) && lid(tr, a) == rid(tr, b) && rmod(tr, b) > last && !eq(rhash(tr, b), lhash(tr, a)))
+//@ pure goneRemotely(tr aclTypeReplicator, a int) bool = forall b int :: 0 <= b && b < nRemote(tr) ==> rid(tr, b) != lid(tr, a)
+
+//@ func diffACLType
+//@ props C19
+//@ results res
+//@ requires[lengths] nLocal(tr) >= 0 && nRemote(tr) >= 0
+//@ requires[local-sorted] forall a int, b int :: 0 <= a && a < b && b < nLocal(tr) ==> (lid(tr, b) == "" ==> lid(tr, a) == "") && (lid(tr, a) != "" ==> strLt(lid(tr, a), lid(tr, b)))
+//@ requires[remote-sorted] forall a int, b int :: 0 <= a && a < b && b < nRemote(tr) ==> (rid(tr, b) == "" ==> rid(tr, a) == "") && (rid(tr, a) != "" ==> strLt(rid(tr, a), rid(tr, b)))
+//@ ensures[deletes-only-what-is-gone] forall k int :: 0 <= k && k < len(res.LocalDeletes) ==> exists a int :: 0 <= a && a < nLocal(tr) && lid(tr, a) == res.LocalDeletes[k] && lid(tr, a) != "" && goneRemotely(tr, a)
+//@ ensures[deletes-everything-gone] forall a int :: 0 <= a && a < nLocal(tr) && lid(tr, a) != "" && goneRemotely(tr, a) ==> exists k int :: 0 <= k && k < len(res.LocalDeletes) && res.LocalDeletes[k] == lid(tr, a)
+//@ ensures[upserts-only-what-is-needed] forall k int :: 0 <= k && k < len(res.LocalUpserts) ==> exists b int :: 0 <= b && b < nRemote(tr) && rid(tr, b) == res.LocalUpserts[k] && rid(tr, b) != "" && needsUpsert(tr, b, lastRemoteIndex)
+//@ ensures[upserts-everything-needed] forall b int :: 0 <= b && b < nRemote(tr) && rid(tr, b) != "" && needsUpsert(tr, b, lastRemoteIndex) ==> exists k int :: 0 <= k && k < len(res.LocalUpserts) && res.LocalUpserts[k] == rid(tr, b)
+//@ loop 1 invariant[bounds] 0 <= localIdx && localIdx <= lenLocal && 0 <= remoteIdx && remoteIdx <= lenRemote && lenLocal == nLocal(tr) && lenRemote == nRemote(tr)
+//@ loop 1 invariant[consumed-local-below-remaining-remote] forall a int, b int :: 0 <= a && a < localIdx && remoteIdx <= b && b < lenRemote && lid(tr, a) != "" && rid(tr, b) != "" ==> strLt(lid(tr, a), rid(tr, b))
+//@ loop 1 invariant[consumed-remote-below-remaining-local] forall a int, b int :: localIdx <= a && a < lenLocal && 0 <= b && b < remoteIdx && lid(tr, a) != "" && rid(tr, b) != "" ==> strLt(rid(tr, b), lid(tr, a))
+//@ loop 1 invariant[deletes-sound] forall k int :: 0 <= k && k < len(res.LocalDeletes) ==> exists a int :: 0 <= a && a < localIdx && lid(tr, a) == res.LocalDeletes[k] && lid(tr, a) != "" && goneRemotely(tr, a)
+//@ loop 1 invariant[deletes-complete] forall a int :: 0 <= a && a < localIdx && lid(tr, a) != "" && goneRemotely(tr, a) ==> exists k int :: 0 <= k && k < len(res.LocalDeletes) && res.LocalDeletes[k] == lid(tr, a)
+//@ loop 1 invariant[upserts-sound] forall k int :: 0 <= k && k < len(res.LocalUpserts) ==> exists b int :: 0 <= b && b < remoteIdx && rid(tr, b) == res.LocalUpserts[k] && rid(tr, b) != "" && needsUpsert(tr, b, lastRemoteIndex)
+//@ loop 1 invariant[upserts-complete] forall b int :: 0 <= b && b < remoteIdx && rid(tr, b) != "" && needsUpsert(tr, b, lastRemoteIndex) ==> exists k int :: 0 <= k && k < len(res.LocalUpserts) && res.LocalUpserts[k] == rid(tr, b)
+//@ loop 2 invariant[bounds] 0 <= localIdx && localIdx <= lenLocal && 0 <= remoteIdx && remoteIdx <= lenRemote && lenLocal == nLocal(tr) && lenRemote == nRemote(tr) && (localIdx < lenLocal ==> remoteIdx == lenRemote)
+//@ loop 2 invariant[consumed-remote-below-remaining-local] forall a int, b int :: localIdx <= a && a < lenLocal && 0 <= b && b < remoteIdx && lid(tr, a) != "" && rid(tr, b) != "" ==> strLt(rid(tr, b), lid(tr, a))
+//@ loop 2 invariant[deletes-sound] forall k int :: 0 <= k && k < len(res.LocalDeletes) ==> exists a int :: 0 <= a && a < localIdx && lid(tr, a) == res.LocalDeletes[k] && lid(tr, a) != "" && goneRemotely(tr, a)
+//@ loop 2 invariant[deletes-complete] forall a int :: 0 <= a && a < localIdx && lid(tr, a) != "" && goneRemotely(tr, a) ==> exists k int :: 0 <= k && k < len(res.LocalDeletes) && res.LocalDeletes[k] == lid(tr, a)
+//@ loop 2 invariant[upserts-sound] forall k int :: 0 <= k && k < len(res.LocalUpserts) ==> exists b int :: 0 <= b && b < remoteIdx && rid(tr, b) == res.LocalUpserts[k] && rid(tr, b) != "" && needsUpsert(tr, b, lastRemoteIndex)
+//@ loop 2 invariant[upserts-complete] forall b int :: 0 <= b && b < remoteIdx && rid(tr, b) != "" && needsUpsert(tr, b, lastRemoteIndex) ==> exists k int :: 0 <= k && k < len(res.LocalUpserts) && res.LocalUpserts[k] == rid(tr, b)
+//@ loop 3 invariant[bounds] localIdx == lenLocal && 0 <= remoteIdx && remoteIdx <= lenRemote && lenLocal == nLocal(tr) && lenRemote == nRemote(tr)
+//@ loop 3 invariant[consumed-local-below-remaining-remote] forall a int, b int :: 0 <= a && a < lenLocal && remoteIdx <= b && b < lenRemote && lid(tr, a) != "" && rid(tr, b) != "" ==> strLt(lid(tr, a), rid(tr, b))
+//@ loop 3 invariant[deletes-sound] forall k int :: 0 <= k && k < len(res.LocalDeletes) ==> exists a int :: 0 <= a && a < lenLocal && lid(tr, a) == res.LocalDeletes[k] && lid(tr, a) != "" && goneRemotely(tr, a)
+//@ loop 3 invariant[deletes-complete] forall a int :: 0 <= a && a < lenLocal && lid(tr, a) != "" && goneRemotely(tr, a) ==> exists k int :: 0 <= k && k < len(res.LocalDeletes) && res.LocalDeletes[k] == lid(tr, a)
+//@ loop 3 invariant[upserts-sound] forall k int :: 0 <= k && k < len(res.LocalUpserts) ==> exists b int :: 0 <= b && b < remoteIdx && rid(tr, b) == res.LocalUpserts[k] && rid(tr, b) != "" && needsUpsert(tr, b, lastRemoteIndex)
+//@ loop 3 invariant[upserts-complete] forall b int :: 0 <= b && b < remoteIdx && rid(tr, b) != "" && needsUpsert(tr, b, lastRemoteIndex) ==> exists k int :: 0 <= k && k < len(res.LocalUpserts) && res.LocalUpserts[k] == rid(tr, b)
+
+//@ file acl_replication_types.go
+
+// the three adapters report the ID, ModifyIndex and content hash of the i-th local / remote object
+//@ func aclTokenReplicator.LocalMeta
+//@ props C19
+//@ requires r != nil && 0 <= i && i < len(r.local) && r.local[i] != nil
+//@ ensures[reports-the-object] id == r.local[i].AccessorID && modIndex == r.local[i].ModifyIndex && eq(hash, r.local[i].Hash)
+//@ modifies nothing
+
+//@ func aclTokenReplicator.RemoteMeta
+//@ props C19
+//@ requires r != nil && 0 <= i && i < len(r.remote) && r.remote[i] != nil
+//@ ensures[reports-the-object] id == r.remote[i].AccessorID && modIndex == r.remote[i].ModifyIndex && eq(hash, r.remote[i].Hash)
+//@ modifies nothing
+
+//@ func aclPolicyReplicator.LocalMeta
+//@ props C19
+//@ requires r != nil && 0 <= i && i < len(r.local) && r.local[i] != nil
+//@ ensures[reports-the-object] id == r.local[i].ID && modIndex == r.local[i].ModifyIndex && eq(hash, r.local[i].Hash)
+//@ modifies nothing
+
+//@ func aclPolicyReplicator.RemoteMeta
+//@ props C19
+//@ requires r != nil && 0 <= i && i < len(r.remote) && r.remote[i] != nil
+//@ ensures[reports-the-object] id == r.remote[i].ID && modIndex == r.remote[i].ModifyIndex && eq(hash, r.remote[i].Hash)
+//@ modifies nothing
+
+//@ func aclRoleReplicator.LocalMeta
+//@ props C19
+//@ requires r != nil && 0 <= i && i < len(r.local) && r.local[i] != nil
+//@ ensures[reports-the-object] id == r.local[i].ID && modIndex == r.local[i].ModifyIndex && eq(hash, r.local[i].Hash)
+//@ modifies nothing
+
+//@ func aclRoleReplicator.RemoteMeta
+//@ props C19
+//@ requires r != nil && 0 <= i && i < len(r.remote) && r.remote[i] != nil
+//@ ensures[reports-the-object] id == r.remote[i].ID && modIndex == r.remote[i].ModifyIndex && eq(hash, r.remote[i].Hash)
+//@ modifies nothing
+
+// ---- C19: one replication round (config entries)
+
+//@ file config_replication.go
+
+//@ pure cfgGone(x structs.ConfigEntry, remote []structs.ConfigEntry) bool = forall b int :: 0 <= b && b < len(remote) ==> !configentry.EqualID(x, remote[b])
+//@ pure cfgNeedsUpdate(y structs.ConfigEntry, local []structs.ConfigEntry, last uint64) bool = (forall a int :: 0 <= a && a < len(local) ==> !configentry.EqualID(local[a], y)) || (exists a int :: 0 <= a && a < len(local) && configentry.EqualID(local[a], y) && y.GetRaftIndex().ModifyIndex > last && !configentry.SameHash(local[a], y))
+
+//@ func diffConfigEntries
+//@ props C19
+//@ results deletions, updates
+//@ requires[local-ids-distinct] forall a int, b int :: 0 <= a && a < b && b < len(local) ==> !configentry.EqualID(local[a], local[b])
+//@ requires[remote-ids-distinct] forall a int, b int :: 0 <= a && a < b && b < len(remote) ==> !configentry.EqualID(remote[a], remote[b])
+//@ ensures[deletes-only-what-is-gone] forall k int :: 0 <= k && k < len(deletions) ==> exists a int :: 0 <= a && a < len(local) && deletions[k] == local[a] && cfgGone(local[a], remote)
+//@ ensures[deletes-everything-gone] forall a int :: 0 <= a && a < len(local) && cfgGone(local[a], remote) ==> exists k int :: 0 <= k && k < len(deletions) && deletions[k] == local[a]
+//@ ensures[updates-only-what-is-needed] forall k int :: 0 <= k && k < len(updates) ==> exists b int :: 0 <= b && b < len(remote) && updates[k] == remote[b] && cfgNeedsUpdate(remote[b], local, lastRemoteIndex)
+//@ ensures[updates-everything-needed] forall b int :: 0 <= b && b < len(remote) && cfgNeedsUpdate(remote[b], local, lastRemoteIndex) ==> exists k int :: 0 <= k && k < len(updates) && updates[k] == remote[b]
+//@ loop 1 invariant[bounds] 0 <= localIdx && localIdx <= len(local) && 0 <= remoteIdx && remoteIdx <= len(remote)
+//@ loop 1 invariant[consumed-local-below-remaining-remote] forall a int, b int :: 0 <= a && a < localIdx && remoteIdx <= b && b < len(remote) ==> configentry.Less(local[a], remote[b])
+//@ loop 1 invariant[consumed-remote-below-remaining-local] forall a int, b int :: localIdx <= a && a < len(local) && 0 <= b && b < remoteIdx ==> configentry.Less(remote[b], local[a])
+//@ loop 1 invariant[deletes-sound] forall k int :: 0 <= k && k < len(deletions) ==> exists a int :: 0 <= a && a < localIdx && deletions[k] == local[a] && cfgGone(local[a], remote)
+//@ loop 1 invariant[deletes-complete] forall a int :: 0 <= a && a < localIdx && cfgGone(local[a], remote) ==> exists k int :: 0 <= k && k < len(deletions) && deletions[k] == local[a]
+//@ loop 1 invariant[updates-sound] forall k int :: 0 <= k && k < len(updates) ==> exists b int :: 0 <= b && b < remoteIdx && updates[k] == remote[b] && cfgNeedsUpdate(remote[b], local, lastRemoteIndex)
+//@ loop 1 invariant[updates-complete] forall b int :: 0 <= b && b < remoteIdx && cfgNeedsUpdate(remote[b], local, lastRemoteIndex) ==> exists k int :: 0 <= k && k < len(updates) && updates[k] == remote[b]
+//@ loop 2 invariant[bounds] 0 <= localIdx && localIdx <= len(local) && 0 <= remoteIdx && remoteIdx <= len(remote) && (localIdx < len(local) ==> remoteIdx == len(remote))
+//@ loop 2 invariant[consumed-remote-below-remaining-local] forall a int, b int :: localIdx <= a && a < len(local) && 0 <= b && b < remoteIdx ==> configentry.Less(remote[b], local[a])
+//@ loop 2 invariant[deletes-sound] forall k int :: 0 <= k && k < len(deletions) ==> exists a int :: 0 <= a && a < localIdx && deletions[k] == local[a] && cfgGone(local[a], remote)
+//@ loop 2 invariant[deletes-complete] forall a int :: 0 <= a && a < localIdx && cfgGone(local[a], remote) ==> exists k int :: 0 <= k && k < len(deletions) && deletions[k] == local[a]
+//@ loop 2 invariant[updates-sound] forall k int :: 0 <= k && k < len(updates) ==> exists b int :: 0 <= b && b < remoteIdx && updates[k] == remote[b] && cfgNeedsUpdate(remote[b], local, lastRemoteIndex)
+//@ loop 2 invariant[updates-complete] forall b int :: 0 <= b && b < remoteIdx && cfgNeedsUpdate(remote[b], local, lastRemoteIndex) ==> exists k int :: 0 <= k && k < len(updates) && updates[k] == remote[b]
+//@ loop 3 invariant[bounds] localIdx == len(local) && 0 <= remoteIdx && remoteIdx <= len(remote)
+//@ loop 3 invariant[consumed-local-below-remaining-remote] forall a int, b int :: 0 <= a && a < len(local) && remoteIdx <= b && b < len(remote) ==> configentry.Less(local[a], remote[b])
+//@ loop 3 invariant[deletes-sound] forall k int :: 0 <= k && k < len(deletions) ==> exists a int :: 0 <= a && a < len(local) && deletions[k] == local[a] && cfgGone(local[a], remote)
+//@ loop 3 invariant[deletes-complete] forall a int :: 0 <= a && a < len(local) && cfgGone(local[a], remote) ==> exists k int :: 0 <= k && k < len(deletions) && deletions[k] == local[a]
+//@ loop 3 invariant[updates-sound] forall k int :: 0 <= k && k < len(updates) ==> exists b int :: 0 <= b && b < remoteIdx && updates[k] == remote[b] && cfgNeedsUpdate(remote[b], local, lastRemoteIndex)
+//@ loop 3 invariant[updates-complete] forall b int :: 0 <= b && b < remoteIdx && cfgNeedsUpdate(remote[b], local, lastRemoteIndex) ==> exists k int :: 0 <= k && k < len(updates) && updates[k] == remote[b]
